@@ -196,6 +196,11 @@ class SeqPlan:
                 ok, msg = miri_warm(RIG_PKG[r], r, ctx.log)
                 if not ok:
                     return ok, "miri: " + msg
+        if ctx.tier == "thorough" and self.tsan_thorough:
+            ok, msg = tsan_build(["rig_r5"], ctx.log)
+            self.tsan_ok = ok
+            if not ok:
+                ctx.log(f"[build] TSan build failed ({msg}); TSan shards skipped")
         if ctx.tier == "thorough" and self.asan_thorough:
             ok, msg = asan_build(pkgs, ctx.log)
             if not ok:
@@ -252,6 +257,20 @@ class SeqPlan:
                     timeout=1500 if ctx.tier == "quick" else 5400,
                 )
             )
+        if ctx.tier == "thorough" and self.tsan_thorough and getattr(self, "tsan_ok", False):
+            for s in range(8):
+                out = os.path.join(ctx.scratch, f"tsan-r5-{s}.json")
+                jobs.append(
+                    dict(
+                        name=f"tsan-r5-{s}",
+                        kind="asan",
+                        rig="r5",
+                        argv=[os.path.join(TARGET, "tsan", "x86_64-unknown-linux-gnu", "release", "r5"), "seq", "--profile", self.miri_profile, "--seed", str(ctx.seed * 15485863 + s), "--histories", "60", "--ops", "250", "--shrink", "0", "--out", out],
+                        env={"TSAN_OPTIONS": "halt_on_error=1 exitcode=77"},
+                        out=out,
+                        timeout=5400,
+                    )
+                )
         if ctx.tier == "thorough" and self.asan_thorough and getattr(self, "asan_ok", False):
             for s in range(8):
                 rig = mrigs[s % len(mrigs)]
@@ -333,7 +352,7 @@ class SeqPlan:
                     sig = "process_died"
                     if kind == "asan":
                         tools["asan"]["reports"] += 1
-                        sig = "asan_report"
+                        sig = "sanitizer_report"
                     viols.append(dict(prop=prop, sig=sig, detail=detail, op="", op_index=-1, job=job["name"]))
                     if replay_path is None:
                         replay_path = self.save_cmd_replay(ctx, job, r)
@@ -400,6 +419,23 @@ class SeqPlan:
         with open(path, "w") as f:
             json.dump(dict(kind="note", violation=v), f)
         return path
+
+
+def tsan_build(pkgs, log, bins=None):
+    argv = ["cargo", "+nightly", "build", "--offline", "--release", "-Zbuild-std", "--target", "x86_64-unknown-linux-gnu"] + CARGO_CONFIG
+    for p in pkgs:
+        argv += ["-p", p]
+    for b in bins or []:
+        argv += ["--bin", b]
+    e = base_env()
+    e["RUSTFLAGS"] = "--cfg brood_verif --cfg bvh_notrack -Zsanitizer=thread"
+    e["CARGO_TARGET_DIR"] = os.path.join(TARGET, "tsan")
+    t0 = time.time()
+    p = subprocess.run(argv, cwd=ROOT, env=e, stdout=subprocess.PIPE, stderr=subprocess.PIPE)
+    log(f"[build] tsan {' '.join(pkgs)} -> rc={p.returncode} in {time.time() - t0:.1f}s")
+    if p.returncode != 0:
+        return False, p.stderr.decode("utf-8", "replace")[-400:]
+    return True, "ok"
 
 
 def asan_build(pkgs, log):
@@ -686,7 +722,16 @@ class SchedPlan(ToolPlan):
 
     def build(self, ctx):
         self.progs = self.programs(ctx)
-        return cargo_build(["schedprogs"], ctx.log)
+        ok, msg = cargo_build(["schedprogs"], ctx.log)
+        self.tsan_progs = []
+        if ok and ctx.tier == "thorough" and self.prop == "C08":
+            committed = [p for p in self.progs if not p.startswith("sched_t")]
+            tok, tmsg = tsan_build(["schedprogs"], ctx.log, bins=committed)
+            if tok:
+                self.tsan_progs = committed
+            else:
+                ctx.log(f"[build] TSan build of schedule programs failed ({tmsg}); TSan shards skipped")
+        return ok, msg
 
     def evaluations(self, acc):
         return int(acc.get("cases", 0))
@@ -703,6 +748,10 @@ class SchedPlan(ToolPlan):
             if not quick:
                 out2 = os.path.join(ctx.scratch, f"{p}-pools.json")
                 jobs.append(dict(name=p + "-pools", kind="native", argv=[os.path.join(TARGET, "release", p), "run", "--seed", str(ctx.seed * 37 + i), "--worlds", "150", "--pools-only", "1", "--jitter", "20", "--out", out2], out=out2, timeout=5400))
+        for i, p in enumerate(getattr(self, "tsan_progs", [])):
+            out = os.path.join(ctx.scratch, f"{p}-tsan.json")
+            jobs.append(dict(name=p + "-tsan", kind="native", argv=[os.path.join(TARGET, "tsan", "x86_64-unknown-linux-gnu", "release", p), "run", "--seed", str(ctx.seed * 41 + i), "--worlds", "40", "--pools-only", "1", "--jitter", "30", "--out", out],
+                             env={"TSAN_OPTIONS": "halt_on_error=1 exitcode=77"}, out=out, timeout=5400))
         if self.prop == "C12":
             # bounded-progress probes: run_schedule must return on pools of 1, 2 and 16 threads
             for i, p in enumerate(self.progs):
@@ -761,7 +810,7 @@ PLANS = {
                           "bounded progress: run_schedule returns on rayon pools of 1, 2 and 16 threads within a 120 s watchdog (ms typical), a timeout must reproduce twice to count",
                      rule="as C07; evidence counts same-group pairs checked and termination probes completed",
                      assumptions=["liveness is restated as bounded progress (watchdog >= 1000x typical run time, reproduced twice)", "the reference grouping considers declared access only, not filters"]),
-    "C09": SeqPlan("C09", ["par"], ["r5", "r9", "r1"], quick=(6, 100, 250), thorough=(8, 1200, 300), miri_quick=6, miri_thorough=24, miri_profile="par", miri_ops=40, miri_flags="-Zmiri-ignore-leaks", floor_ops=20000,
+    "C09": SeqPlan("C09", ["par"], ["r5", "r9", "r1"], quick=(6, 100, 250), thorough=(8, 1200, 300), miri_quick=6, miri_thorough=24, miri_profile="par", miri_ops=40, miri_flags="-Zmiri-ignore-leaks", floor_ops=20000, tsan_thorough=True,
                    what="par_query (for_each, map+collect, count, any, find_map_any), run_par_system and run_system over the generated view/filter family on rayon pools of 1/2/3/4/8/16 threads with jitter: multiset of results vs model (= sequential query), "
                         "each entity once, no two results sharing a mutably viewed address, writes land on that entity only; same code under Miri's data-race detector"),
     "C10": SeqPlan("C10", ["clone"], ALL_RIGS, quick=(5, 120, 300), thorough=(8, 1500, 400), miri_quick=4, miri_thorough=16, miri_profile="clone",
